@@ -9,7 +9,9 @@ import (
 	"verifharness/kit"
 )
 
-// Op kinds: 0 = Put(k, fresh session), 1 = Put(k, nil), 2 = Get(k)
+// Op kinds: 0 = Put(k, fresh session), 1 = Put(k, nil), 2 = Get(k),
+// 3 = Put(k, the session the cache already holds for k) (what a client does after a
+// resumed handshake; a fresh session when k is absent)
 type Op struct {
 	Kind int `json:"kind"`
 	Key  int `json:"key"`
@@ -81,13 +83,23 @@ func check(c Case, r *kit.R) {
 	cache := tls.NewLRUClientSessionCache(c.Cap)
 	m := &model{cap: effCap}
 	nkeys := 0
-	sawEvict, sawNilAbsent, sawNilPresent := false, false, false
+	sawEvict, sawNilAbsent, sawNilPresent, sawRePut := false, false, false, false
 	step := func(i int, op Op) {
 		k := keyName(op.Key)
 		switch op.Kind {
 		case 0:
 			s := &tls.ClientSessionState{}
 			if m.find(k) < 0 && len(m.l) >= m.cap {
+				sawEvict = true
+			}
+			cache.Put(k, s)
+			m.put(k, s)
+		case 3:
+			s := &tls.ClientSessionState{}
+			if j := m.find(k); j >= 0 {
+				s = m.l[j].s
+				sawRePut = true
+			} else if len(m.l) >= m.cap {
 				sawEvict = true
 			}
 			cache.Put(k, s)
@@ -153,19 +165,22 @@ func check(c Case, r *kit.R) {
 	if sawNilPresent {
 		r.Class("put-nil-present")
 	}
+	if sawRePut {
+		r.Class("re-put-of-the-stored-session")
+	}
 	r.Class(fmt.Sprintf("cap=%d", c.Cap))
 	if ntEvict || ntNil {
 		r.NonTrivial()
 	}
 }
 
-const rule = "histories of Put(k,fresh)/Put(k,nil)/Get(k) over keys a..e and capacities {-1,0,1..4}, executed in lock-step with an ordered-list LRU model; every Get (and a deterministic probing tail that observes the complete recency order) must agree. Non-trivial: history that evicts from a full cache or does Put(k,nil) on an absent key; distinct by case hash"
+const rule = "histories of Put(k,fresh)/Put(k,nil)/Get(k)/Put(k, the session already stored for k) over keys a..e and capacities {-1,0,1..4}, executed in lock-step with an ordered-list LRU model; every Get (and a deterministic probing tail that observes the complete recency order) must agree. Non-trivial: history that evicts from a full cache or does Put(k,nil) on an absent key; distinct by case hash"
 
 func gen(t *rapid.T) Case {
 	c := Case{Cap: rapid.SampledFrom([]int{1, 2, 3, 4, 1, 2, 3, 4, 0, -1}).Draw(t, "cap")}
 	n := rapid.IntRange(0, 40).Draw(t, "n")
 	for i := 0; i < n; i++ {
-		c.Ops = append(c.Ops, Op{Kind: rapid.SampledFrom([]int{0, 0, 0, 1, 2, 2}).Draw(t, "kind"), Key: rapid.IntRange(0, 4).Draw(t, "key")})
+		c.Ops = append(c.Ops, Op{Kind: rapid.SampledFrom([]int{0, 0, 0, 1, 2, 2, 3}).Draw(t, "kind"), Key: rapid.IntRange(0, 4).Draw(t, "key")})
 	}
 	return c
 }
@@ -201,6 +216,44 @@ func TestPropExhaustive(t *testing.T) {
 						for i := 0; i < l; i++ {
 							d := x % 9
 							x /= 9
+							c.Ops = append(c.Ops, Op{Kind: d / 3, Key: d % 3})
+						}
+						if !yield(c) {
+							return
+						}
+					}
+				}
+			}
+		}})
+}
+
+// exhaustive over the four operation kinds (one level shallower than the three-kind enumeration)
+func TestPropExhaustiveRePut(t *testing.T) {
+	env := kit.GetEnv()
+	L := 4
+	if env.Tier == "thorough" {
+		L = 5
+	}
+	kit.Run(t, kit.Spec[Case]{ID: "C35", Name: "exhaustive-reput", Check: check,
+		Rule: fmt.Sprintf("exhaustive: every history of length <= %d over 3 keys x {put fresh, put-nil, get, put the stored session again} x capacity 1..3; non-trivial as above", L),
+		Enum: func(shard, nshards int, yield func(Case) bool) {
+			idx := 0
+			for cap := 1; cap <= 3; cap++ {
+				for l := 0; l <= L; l++ {
+					total := 1
+					for i := 0; i < l; i++ {
+						total *= 12
+					}
+					for v := 0; v < total; v++ {
+						idx++
+						if idx%nshards != shard {
+							continue
+						}
+						c := Case{Cap: cap}
+						x := v
+						for i := 0; i < l; i++ {
+							d := x % 12
+							x /= 12
 							c.Ops = append(c.Ops, Op{Kind: d / 3, Key: d % 3})
 						}
 						if !yield(c) {
